@@ -42,8 +42,8 @@ PROBE = "zz_probe"
 
 def plan(tier):
     if tier == "quick":
-        return {"shards": 8, "examples": 200, "wall": 100}
-    return {"shards": 16, "examples": 3000, "wall": 2400}
+        return {"shards": 8, "examples": 800, "wall": 100}
+    return {"shards": 16, "examples": 12000, "wall": 2400}
 
 
 @st.composite
